@@ -22,6 +22,13 @@ def main():
     props = [json.loads(l) for l in open(os.path.join(HERE, 'properties.jsonl'))]
     mods = load()
     checks = []
+    def table_text(pid):
+        from props import tables
+        fs = tables.TABLES.get(pid, [])
+        if not fs:
+            return ''
+        return ('  Bounded as well: formula tables (props/tables.py: %s) - inputs on which the pinned tree once broke the property (each repaired by a fix: '
+                'commit, DESIGN 5.1) or still does (known findings), and their neighbours, with the outcome the statement demands.' % ', '.join(f.__name__ for f in fs))
     na = []
     for p in props:
         pid = p['id']
@@ -39,7 +46,7 @@ def main():
             'evidence_file': 'evidence/%s.json' % pid,
             'replay_cmd_template': './check %s --replay {path}' % pid,
             'engine': 'pyvc',
-            'level_claimed': {'category': 'proof', 'text': m.LEVEL_TEXT, 'design_ref': 'DESIGN.md section 4 (%s)' % pid},
+            'level_claimed': {'category': 'proof', 'text': m.LEVEL_TEXT + table_text(pid), 'design_ref': 'DESIGN.md section 4 (%s)' % pid},
             'level_note': 'Assumed: ' + '; '.join(getattr(m, 'TRUSTED', [])) + '. Python semantics as encoded by pyvc (DESIGN 2.3, E1-E12), '
                           'float arithmetic treated as real arithmetic where flagged in the evidence; bounded stand-ins are labelled and never counted as proved.',
             'technique': getattr(m, 'TECHNIQUE', 'contract-based deductive verification: sidecar contracts on the real functions, VCs generated from '
